@@ -720,6 +720,93 @@ def rule_wqguard(ctx, rep, rid):
     pat.require(n >= 4, "only %d queue_work sites on cds_lfht_workqueue" % n)
 
 
+def rule_bucketat(ctx, rep, rid):
+    """T10 sibling agreement between each allocator's alloc_bucket_table (how many nodes each level / chunk / mapping holds)
+    and its bucket_at (which slot an index maps to).  order: level 0 holds min_nr_alloc_buckets nodes and is selected by
+    `index < min_nr_alloc_buckets`; level k > 0 holds L(k) nodes (L taken from the calloc of that level) and bucket_at selects
+    level fls(index) and slot index & (L(fls(index)) - 1).  chunk: every chunk holds C nodes (C from the calloc); bucket_at
+    selects chunk index >> min_alloc_buckets_order and slot index & (C - 1).  mmap: one flat array, slot index.  An index
+    mapped outside its level, or two indices mapped to one slot, corrupt bucket chains for every table size above the smallest."""
+    import re as _re
+    m = ctx.mod("cds", "perfn")
+    n = 0
+    for gname, g in m.globals.items():
+        init = g.get("init")
+        if not init or init[0] != "struct" or init[1] != "cds_lfht_mm_type":
+            continue
+        slots = dict((k.split(".")[-1], v) for k, v in init[2])
+        af, bf = m.fn(slots["alloc_bucket_table"][1]), m.fn(slots["bucket_at"][1])
+        if af is None or bf is None:
+            raise Broken("mm functions of %s not defined" % gname)
+        rep.touch(af)
+        rep.touch(bf)
+        n += 1
+        kind = gname.split("_")[-1]
+
+        def norm(e):
+            return _re.sub(r"cds_lfht_fls_ulong\(\)#\d+", "ORDER", ir.expr_str(e)).replace("arg1", "ARG1")
+
+        def slot_exprs(f):
+            """[(outer index expr or None, inner index expr, dominating atoms)] for every address bucket_at can return"""
+            out = []
+            r = f.rets()[0]
+            roots = []
+            v = ir.strip_casts(f, r.args[0], int_too=False)
+            vi = f.inst_of(v)
+            if vi is not None and vi.op == "phi":
+                roots = [f.inst_of(ir.strip_casts(f, x, int_too=False)) for x, _b in vi.d["inc"]]
+            else:
+                roots = [vi]
+            for g2 in roots:
+                if g2 is None or g2.op != "gep":
+                    raise Broken("%s: returned address is not an array element" % f.name)
+                inner = ir.expr(f, g2.args[-1], 8)
+                base = f.inst_of(ir.strip_casts(f, g2.args[0], int_too=False))
+                outer = None
+                if base is not None and base.op == "load":
+                    g1 = f.inst_of(ir.strip_casts(f, base.args[0], int_too=False))
+                    if g1 is not None and g1.op == "gep" and len(g1.args) >= 3:
+                        outer = ir.expr(f, g1.args[-1], 8)
+                out.append((outer, inner, pat.dom_leaf_atoms(f, g2)))
+            return out
+        allocs = [i for i in af.all_insts() if i.op == "icall" and (lambda e: e[0] == "load" and e[1].endswith("cds_lfht_alloc.calloc"))(ir.expr(af, i.d["fp"]))]
+        sl = slot_exprs(bf)
+        if kind == "order":
+            lvl = [a for a in allocs if any(x[0] in ("ugt", "ne") and x[1] == ("arg", 1) for x in pat.dom_leaf_atoms(af, a)) and ir.expr(af, a.args[1], 6)[0] != "load"]
+            l0 = [a for a in allocs if ir.expr(af, a.args[1], 6) == ("load", "arg0.cds_lfht.min_nr_alloc_buckets", "na", ir.expr(af, a.args[1], 6)[3]) or ir.expr_str(ir.expr(af, a.args[1], 6)) == "ld(arg0.cds_lfht.min_nr_alloc_buckets)"]
+            pat.require(lvl and l0, "order allocator: level allocations not recognised")
+            L = ir.expr_str(ir.expr(af, lvl[0].args[1], 6)).replace("arg1", "ORDER")      # e.g. (1 shl (ORDER sub 1))
+            ok0 = okk = False
+            # comparable only if the mapping still has the skeleton (level 0: slot = f(index) under an unsigned bound test;
+            # level k: slot = index & mask); a differently structured but possibly equivalent mapping is inconclusive
+            for outer, inner, atoms in sl:
+                if outer != ("c", 0) and not (inner[0] == "bin" and inner[1] == "and" and ("arg", 1) in (inner[2], inner[3])):
+                    raise Broken("order allocator: bucket_at slot expression %s is not of the form index & mask: table not comparable" % norm(inner))
+            for outer, inner, atoms in sl:
+                if outer == ("c", 0):
+                    ok0 = inner == ("arg", 1) and any(a[0] == "ult" and a[1] == ("arg", 1) and ir.expr_str(a[2]) == "ld(arg0.cds_lfht.min_nr_alloc_buckets)" for a in atoms)
+                elif outer is not None:
+                    okk = norm(outer) == "ORDER" and norm(inner) == "(ARG1 and (%s sub 1))" % L and any(a[0] == "uge" and a[1] == ("arg", 1) for a in atoms)
+            rep.check(ok0, rid, "order.level0", "indices below min_nr_alloc_buckets map to tbl_order[0][index]", "order allocator: level 0 selection / slot is %s" % [(norm(o) if o else None, norm(i)) for o, i, _ in sl], [bf.name])
+            rep.check(okk, rid, "order.levelk", "index maps to level fls(index), slot index & (level size - 1), level size %s as allocated" % L,
+                      "order allocator: bucket_at maps an index to %s but level ORDER is allocated with %s nodes" % ([(norm(o) if o else None, norm(i)) for o, i, _ in sl if o != ("c", 0)], L), [bf.name])
+        elif kind == "chunk":
+            caps = set(ir.expr_str(ir.expr(af, a.args[1], 6)) for a in allocs)
+            pat.require(len(caps) == 1, "chunk allocator: chunk capacity expression %s" % caps)
+            C = caps.pop()
+            outer, inner, _ = sl[0]
+            if outer is None or not (outer[0] == "bin" and outer[1] == "lshr" and outer[2] == ("arg", 1)) or not (inner[0] == "bin" and inner[1] == "and" and ("arg", 1) in (inner[2], inner[3])):
+                raise Broken("chunk allocator: bucket_at is not of the form tbl[index >> s][index & mask]: table not comparable")
+            okc = outer is not None and ir.expr_str(outer) == "(arg1 lshr ld(arg0.cds_lfht.min_alloc_buckets_order))"
+            oks = ir.expr_str(inner) in ("(arg1 and (%s sub 1))" % C, "(arg1 and (%s add -1))" % C)
+            rep.check(okc and oks, rid, "chunk.slot", "chunk = index >> min_alloc_buckets_order, slot = index & (chunk capacity - 1), capacity %s as allocated" % C,
+                      "chunk allocator: bucket_at maps an index to chunk %s slot %s but every chunk holds %s nodes" % (ir.expr_str(outer) if outer else None, ir.expr_str(inner), C), [bf.name])
+        elif kind == "mmap":
+            outer, inner, _ = sl[0]
+            rep.check(inner == ("arg", 1), rid, "mmap.slot", "flat array: slot = index", "mmap allocator: slot is %s" % ir.expr_str(inner), [bf.name])
+    pat.require(n >= 3, "only %d cds_lfht_mm_type tables found" % n)
+
+
 def rule_destroy(ctx, rep, rid):
     d = fn(ctx, "cds_lfht_delete_bucket")
     rep.touch(d)
